@@ -69,6 +69,9 @@ def _universe(tier):
         "DC(x=[0])", "DC(x=[0, 1], y=1)", "[DC(x=1)]", "[DC(x=1), DC(x=2, y=2)]", "{'k0': DC(x=1)}", "DC(x=DC(x=1))",
         "AT(a=[1])", "[AT(a=1)]", "PM(a={'k0': 1})", "[PM(a=1)]", "NT(a=[1], b=2)", "[NT(a=1, b=2)]",
         "defaultdict(list, {'a': [1], 'b': []})", "[Opaque(1)]", "{'k0': Opaque(2)}", "Opaque(2)", "[Color.RED, Color.GREEN]",
+        # constructor calls written with positional arguments (hand-written style)
+        "DC(1)", "DC(1, 2)", "DC(1, 2, [3])", "NT(1, 2)", "NT(1, b=2)", "NTD(1)", "NTD(1, 2)", "AT(1)", "AT(1, 2, [3])", "defaultdict(list, a=[1])",
+        "[NT(1, 2), AT(1)]", "{'k0': NT(1, 3)}",
         "DCS(x=1)", "DCS(x=1, y=2)", "DCX(x=1)", "DCX(x=1, w=3)", "[DCS(x=1)]", "ATS(a=1)", "PMS(a=1)", "NTS(a=1, b=2)", "{'k0': DCX(x=1, y=2)}",
         "[Perm.R | Perm.W, Perm(0)]", "[1.5, -1, 2**64]", "['a\\nb', ' a ']", "{(0, 1): 'a'}", "{Color.RED: 0}",
     )]
